@@ -385,6 +385,10 @@ class Namespace:
         self.inherits = inherits
         if callables is not None:
             self.callables = {c.__name__: c for c in callables}
+        # relative URIs given to get_template() / get_namespace() /
+        # include_file() resolve against the template the tag is written in
+        if calling_uri is not None:
+            self._templateuri = calling_uri
 
     callables = ()
 
@@ -661,6 +665,8 @@ class ModuleNamespace(Namespace):
         self.inherits = inherits
         if callables is not None:
             self.callables = {c.__name__: c for c in callables}
+        if calling_uri is not None:
+            self._templateuri = calling_uri
 
         mod = __import__(module)
         for token in module.split(".")[1:]:
